@@ -203,7 +203,7 @@ func keys(m map[string]bool) []string {
 // ---- Pyroscope selectors ----
 
 type profSeries struct {
-	Type        string      // __name__
+	Type        string // __name__
 	PeriodType  string
 	PeriodUnit  string
 	SampleTypes [][2]string // (type, unit)
@@ -395,7 +395,7 @@ func checkProfCase(ps *profStore, c matcherCase) (class, what, outcome string) {
 	}
 	// documented deviant rules, weakest first
 	type rule struct {
-		name                         string
+		name                        string
 		presence, unanchored, perFP bool
 	}
 	for _, ru := range []rule{
